@@ -140,6 +140,18 @@ impl<'a, F: Function> Solver<'a, F> {
             // Populate this row of the Jacobian
             for gi in 0..self.grad_index.len() {
                 *jacobian.get_mut((ti, gi)).unwrap() = out[0][gi / 3].d(gi % 3);
+                #[cfg(fidget_verif)]
+                fidget_core::verif::emit(
+                    "jacobian",
+                    &[
+                        ("eq", ti as i64),
+                        ("gi", gi as i64),
+                        (
+                            "value",
+                            out[0][gi / 3].d(gi % 3).to_bits() as i32 as i64,
+                        ),
+                    ],
+                );
             }
             result[ti] = out[0][0].v;
         }
@@ -206,6 +218,16 @@ pub fn solve<F: Function>(
     }
 
     let mut solver = Solver::new(eqs, vars);
+    #[cfg(fidget_verif)]
+    for (v, i) in &solver.grad_index {
+        use std::hash::{Hash, Hasher};
+        let mut h = std::collections::hash_map::DefaultHasher::new();
+        v.hash(&mut h);
+        fidget_core::verif::emit(
+            "grad_index",
+            &[("var", h.finish() as i64), ("gi", *i as i64)],
+        );
+    }
 
     // Build an array of current values for each free variable
     let mut cur = vec![0f32; solver.grad_index.len()];
